@@ -91,11 +91,11 @@ func zzIsPrefix(p, full []byte) bool {
 // returns errDisconnect; a clean end of the source forwards everything; logged
 // bytes equal forwarded bytes up to the one chunk in flight.
 //
-//verif:harness kind=api unwind=64 bound=chunks<=3(quick)/4(thorough),chunk<=2B,veto/write-error-at-any-call
+//verif:harness kind=api unwind=64 bound=chunks<=3(quick)/6(thorough),chunk<=2B,veto/write-error-at-any-call
 func ZZ_C06_CopyOneDirection() {
 	nc := 3
 	if verifThorough() {
-		nc = 4
+		nc = 6
 	}
 	src := zzEndpoint("src", nc)
 	dst := &zzEnd{writeErrAt: verifChoice("writeErrAt", nc+1) - 1}
@@ -168,11 +168,15 @@ func (x zzRW2) Write(p []byte) (int, error) { return x.w.Write(p) }
 // accounting laws hold, and the per-user totals handed to the logger equal the
 // bytes forwarded in each direction, up to one chunk in flight.
 //
-//verif:harness kind=api replay=native+sched unwind=64 preempt=1 bound=chunks<=2-per-direction,chunk<=2B,one-preemption
+//verif:harness kind=api replay=native+sched unwind=64 preempt=1 bound=chunks<=2(quick)/3(thorough)-per-direction,chunk<=2B,one-preemption
 func ZZ_C06_CopyTwoWayAccounting() {
-	client := zzEndpoint("c", 2) // what the client sends / receives
-	remote := zzEndpoint("r", 2)
-	l := &zzCountLogger{vetoAt: verifChoice("vetoAt", 4) - 1}
+	per := 2
+	if verifThorough() {
+		per = 3
+	}
+	client := zzEndpoint("c", per) // what the client sends / receives
+	remote := zzEndpoint("r", per)
+	l := &zzCountLogger{vetoAt: verifChoice("vetoAt", 2*per) - 1}
 	stats := &StreamStats{}
 	err := copyTwoWayEx("user", zzRW2{r: client, w: client}, zzRW2{r: remote, w: remote}, l, stats)
 	verifQuiesce()
